@@ -5,4 +5,5 @@ From Verif Require Import Chain.Model LogDB.Model.
 Extraction Language OCaml.
 Extraction "../oracle/c15/model.ml"
   init_repo add_block get_block_id exclude r_best num_of
-  empty_db write_logs filter_events filter_transfers db_events db_transfers seq_block seq_txi seq_logi.
+  empty_db write_logs filter_events filter_transfers db_events db_transfers seq_block seq_txi seq_logi
+  get_block write_block truncate seek_position sync_logdb sync_logdb_v verify_logdb.
